@@ -34,7 +34,8 @@ func (c *wsConn) tryDelete(s *Subscription) {
 	}
 	refs[s.RID()] = rr
 
-	sent := s.IsSent()
+	// A deleted resource, and what it refers to, was sent to the client
+	sent := s.IsSent() || s.state == stateDeleted
 	sentDiff := 0
 	if sent {
 		sentDiff = 1
